@@ -150,6 +150,7 @@ def run(prog, rep, tier, cfg):
         rep.anchor_missing('hand-gates', e)
     # ---- error discipline: no Result produced in these crates is silently discarded
     X.no_dropped_results('K14', 'results-not-discarded', [c for c in prog.crates if c.startswith('fil_actor')], 'no Result of a call is discarded')
+    X.tolerated_failures('K15', 'tolerated-failures', [c for c in prog.crates if c.startswith('fil_actor')], 'tolerated failures are the reviewed ones')
 
 
 
